@@ -140,6 +140,21 @@ func (s decodeStream) Generate(rng *rand.Rand, n int, thorough bool) []Case {
 			} else {
 				tag := []int{14, 12, 16, 5, 9, 11, 13, 15, 17, 19, 24, 25, 30, 1, 4, 7}[rng.Intn(16)]
 				var op *N
+				if rng.Intn(4) == 0 {
+					// application tags in the high-tag-number form, among them numbers congruent to a supported operation
+					// modulo 2^8, 2^16 and 2^32 - with the body of that operation
+					tag = []int{31, 32, 127, 128, 255, 256, 258, 259, 262, 264, 266, 279, 512, 65536, 65538, 65539, 1 << 32, 1<<32 + 3, 1<<32 + 23}[rng.Intn(19)]
+					body := genReq(rng)
+					body.Kind = map[int]string{0: "bind", 2: "unbind", 3: "search", 6: "modify", 8: "add", 10: "delete", 23: "extended"}[tag&0xff]
+					if body.Kind == "" || body.Kind == "unbind" {
+						body.Kind = "bind"
+					}
+					if root, err := body.Node(); err == nil && len(root.Kids) >= 2 {
+						root.Kids[1].Tag = tag
+						cs = append(cs, decodeCase(root.Ser(), "err", "unsupported"))
+						continue
+					}
+				}
 				switch {
 				case tag == 16:
 					op = P(1, 16, encInt(int64(rng.Intn(1000))))
